@@ -80,6 +80,7 @@ type dsReply struct {
 	Linkname   []string          `json:"linkname"`
 	Unsafe     []string          `json:"imports_unsafe"`
 	ParseError string            `json:"parse_error,omitempty"`
+	LockVar    string            `json:"lock_var"`
 }
 
 type lockState int
@@ -758,6 +759,39 @@ func dumpsites(q dsReq) dsReply {
 			}
 		}
 	}
+	// the mutex: the requested name if the package declares it; otherwise, when the package declares exactly one
+	// package-level sync.RWMutex / sync.Mutex, that one (the variable was renamed). Several mutexes are NOT merged:
+	// accesses under another mutex than the chosen one count as unlocked.
+	mutexes := []string{}
+	for _, f := range files {
+		for _, d := range f.Decls {
+			gd, ok := d.(*ast.GenDecl)
+			if !ok || gd.Tok != token.VAR {
+				continue
+			}
+			for _, sp := range gd.Specs {
+				vs := sp.(*ast.ValueSpec)
+				ty := typeString(vs.Type)
+				if ty == "sync.RWMutex" || ty == "sync.Mutex" {
+					for _, id := range vs.Names {
+						mutexes = append(mutexes, id.Name)
+					}
+				}
+			}
+		}
+	}
+	declared := false
+	for _, m := range mutexes {
+		if m == q.Lock {
+			declared = true
+		}
+	}
+	if !declared && len(mutexes) == 1 {
+		out.Notes = append(out.Notes, dsMark{What: "mutex `" + q.Lock + "` is not declared; the only package-level mutex `" + mutexes[0] + "` is used", Func: "", File: "", Line: 0})
+		q.Lock = mutexes[0]
+		a.lock = mutexes[0]
+	}
+	out.LockVar = q.Lock
 	// package-level declarations
 	for _, f := range files {
 		for _, d := range f.Decls {
